@@ -105,6 +105,13 @@ def sources(tier, seed, ctx):
     # give up with the time-out error, but must not report that there is no solution
     for j in range(2 if tier == 'quick' else 6):
         srcs.append({'k': 'planted', 'seed': rng.randrange(10**6), 'n': 6, 'r': 13, 'time_limit': 1})
+    # planted instances beyond the sizes the exhaustive program-space model can decide: more than ten outputs (every output
+    # position must carry ITS row of the model), and a gate with more than 64 candidate predecessor pairs (node 12 and up)
+    # that is fixed to read the two inputs
+    for j in range(3 if tier == 'quick' else 10):
+        srcs.append({'k': 'planted', 'seed': rng.randrange(10**6), 'n': 2, 'r': 3 + j % 2, 'm': 11 + j, 'time_limit': 0})
+        srcs.append({'k': 'planted', 'seed': rng.randrange(10**6), 'n': 2, 'r': 11 + j % 2, 'm': 2, 'last_reads_inputs': True,
+                     'fix_last': 'typed' if j % 2 else 'plain', 'time_limit': 0})
     ctx['gen_note'] = f'{len(srcs)} synthesis calls (a third of them after another finder ran in the same process)'
     return srcs
 
@@ -129,19 +136,29 @@ def _planted(src):
         b = rng.randrange(n + k)
         while b == a:
             b = rng.randrange(n + k)
+        if src.get('last_reads_inputs') and k == r - 1:
+            a, b = 0, 1
         gates.append((rng.choice(sorted(_BINOPS)), a, b))
-    tt = []
+    m = src.get('m', 1)
+    # output j is taken at a gate (the last one first, then spread over the others)
+    onodes = [n + r - 1] + [n + (5 * j + 1) % r for j in range(1, m)]
+    cols = []
     for row in range(2 ** n):
         v = [(row >> (n - 1 - j)) & 1 for j in range(n)]
         for t, a, b in gates:
             v.append(_BINOPS[t](v[a], v[b]))
-        tt.append(v[-1])
+        cols.append(v)
+    mtt = [[cols[row][o] for row in range(2 ** n)] for o in onodes]
     names = [f'i{j}' for j in range(n)] + [f's{k}' for k in range(r)]
-    wit = {'g': {names[j]: {'t': 'INPUT', 'o': []} for j in range(n)}, 'ord': list(names), 'i': names[:n], 'o': [names[-1]], 'u': {}, 'b': {}}
+    wit = {'g': {names[j]: {'t': 'INPUT', 'o': []} for j in range(n)}, 'ord': list(names), 'i': names[:n], 'o': [names[o] for o in onodes], 'u': {}, 'b': {}}
     for k, (t, a, b) in enumerate(gates):
         wit['g'][names[n + k]] = {'t': t, 'o': [names[a], names[b]]}
-    call = {'k': 'synth', 'n': n, 'm': 1, 'mtt': [tt], 'r': r, 'basis': BASES['XAIG'], 'basis_kind': 'XAIG', 'spelled': 'str', 'norm': False,
-            'fix': [], 'forbid': [], 'time_limit': src['time_limit']}
+    fix = []
+    if src.get('fix_last'):
+        t, a, b = gates[-1]
+        fix = [{'g': n + r - 1, 'p1': min(a, b), 'p2': max(a, b), 't': t if src['fix_last'] == 'typed' else ''}]
+    call = {'k': 'synth', 'n': n, 'm': m, 'mtt': mtt, 'r': r, 'basis': BASES['XAIG'], 'basis_kind': 'XAIG', 'spelled': 'str', 'norm': False,
+            'fix': fix, 'forbid': [], 'time_limit': src['time_limit']}
     return call, wit
 
 
